@@ -628,6 +628,12 @@ class Machine(object):
       if spec.get("grid"):
         arg, info = _dyadic_probe(arg, D, t, spec)
         self._last_probe_info = info
+        if spec.get("f32") and not spec.get("far"):
+          # the same tuples in single precision (grid points are exact in both)
+          a32 = arg.astype(np.float32)
+          if np.array_equal(a32.astype(float), arg):
+            arg = a32
+            info["f32"] = True
       lay = spec.get("layout")
       if lay == "F":
         arg = np.asfortranarray(arg)
